@@ -8,15 +8,23 @@ from harness import gen
 from harness.framework import Suite
 
 PID = "C09"
-LEAN_MODS = ["SwcVerif.Props.C09"]
+LEAN_MODS = ["SwcVerif.Props.C09", "SwcVerif.Props.C09Gen"]
 # Gen/AlgoViews.lean is regenerated on every run from node.py / path.py / tree.py / branch.py / compartment.py / swc.py (harness/algo_specs/70_views.py)
 TRANSLATE_ALGO = ["AlgoViews"]
 DRIVER_FILES = ["SwcVerif/Model/AlgoRunViews.lean", "SwcVerif/Model/PyViews.lean", "SwcVerif/Gen/AlgoViews.lean"]
 THEOREMS = [
     "C09.mkTree_wf", "C09.step_wf", "C09.run_wf", "C09.at_spec", "C09.view_reads_owner", "C09.reads_pure", "C09.node_write_through",
     "C09.write_then_view_read", "C09.copy_fresh", "C09.detach_fresh", "C09.write_frame", "C09.tree_segments", "C09.branch_segments",
+    # about the definitions GENERATED from the current sources (Gen/AlgoViews.lean; proofs in Refine/Views.lean)
+    "C09.generated_view_read_eq_model", "C09.generated_path_column", "C09.generated_path_getitem_int", "C09.generated_tree_getitem_int",
+    "C09.generated_path_getitem_slice", "C09.generated_tree_getitem_slice", "C09.generated_node_write_through",
+    "C09.generated_write_then_view_read", "C09.generated_path_node_write_lost", "C09.generated_detach", "C09.generated_copy",
+    "C09.generated_branch_segments", "C09.generated_tree_segments",
 ]
-TRUSTED = ["hand-written heap model Model/Views.lean (owners, arrays, views; where numpy aliases and where it copies), tied by the c09.history correspondence: "
+TRUSTED = ["imperative translator harness/translate_algo.py + the hooks and glue listed at the top of harness/algo_specs/70_views.py + Model/Py.lean / PyViews.lean "
+           "(slice.indices, range, fancy indexing), cross-checked by running every generated definition on the c09.history histories (gviews / gslice); "
+           "records hold their owner by VALUE: Python's reference to the owner is the caller's store (Model/AlgoRunViews.lean)",
+           "hand-written heap model Model/Views.lean (owners, arrays, views; where numpy aliases and where it copies), tied by the c09.history correspondence: "
            "every read of every operation history compared exactly, plus np.shares_memory observations in the oracle"]
 ASSUMPTIONS = ["numpy: integer indexing and basic slices are views, fancy indexing and np.array(...) copy; copy.deepcopy copies arrays",
                "slice.indices (CPython); writes through a node of a PATH/BRANCH are lost by design of the library (the property speaks of node handles of a tree)"]
